@@ -81,6 +81,17 @@ func checkC07(c *Check) {
 	c07Globals(c, fns)
 	// (5) goroutine captures
 	c07Captures(c, fns)
+	// (7) locks and semaphore tokens on the compile path are given back on every
+	// path and not held across a call that can take them again: with a process-wide
+	// limiter that would make concurrent compilations wait for each other for ever
+	inFns := map[*ssa.Function]bool{}
+	for _, f := range fns {
+		for _, g := range withClosures(f) {
+			inFns[g] = true
+		}
+	}
+	c.Counts["blocking_resources_on_compile_path"] = blockingResources(c, "RESOURCE-PAIR", "HELD-ACROSS-NESTING", inFns)
+	c.Counts["goroutines_started_in_loops"] = goroutineLoopVars(c, "GOROUTINE-LOOPVAR", inFns)
 	// (6) the file table shared by the import fetchers of one compilation
 	if ic := findImportClosure(c); ic == nil || ic.collector == nil || ic.canon == nil {
 		c.Undecidedf("ANCHOR", "import closure", "-", "cannot resolve the retrieved-list type / collector / canonicaliser in pkg/parse: unresolved anchor")
@@ -349,8 +360,8 @@ func c07Captures(c *Check, fns []*ssa.Function) {
 		})
 	}
 	c.Counts["goroutine_closures_on_pipeline"] = n
-	if n < 2 {
-		c.Undecidedf("GOROUTINE-CAPTURE", "closures", "-", "expected ≥2 goroutine closures in pkg/parse, found %d", n)
+	if n < 1 {
+		c.Undecidedf("GOROUTINE-CAPTURE", "closures", "-", "expected goroutine closures in pkg/parse (the per-file workers), found %d", n)
 	}
 }
 
@@ -415,6 +426,26 @@ func captureWriteOK(addr ssa.Value, fn *ssa.Function, mc *ssa.MakeClosure, loop 
 		// element selected by the loop's induction variable: disjoint per iteration
 		if fwd, _ := inductionForward(x.Index); fwd && loop != nil && loop[x.Block()] {
 			return true, "element indexed by the loop variable"
+		}
+		// inside the goroutine: the index is a per-iteration copy of the loop
+		// variable (`i := i` in the loop body, captured by the closure)
+		if ld, ok := x.Index.(*ssa.UnOp); ok && ld.Op == token.MUL {
+			if fv, ok := ld.X.(*ssa.FreeVar); ok {
+				if al, ok := bindingOf(fv, fn, mc).(*ssa.Alloc); ok && loop != nil && loop[al.Block()] && al.Referrers() != nil {
+					nStores, fromLoopVar := 0, true
+					for _, r := range *al.Referrers() {
+						if st, ok := r.(*ssa.Store); ok && st.Addr == ssa.Value(al) {
+							nStores++
+							if fwd, _ := inductionForward(st.Val); !fwd {
+								fromLoopVar = false
+							}
+						}
+					}
+					if nStores == 1 && fromLoopVar {
+						return true, "element indexed by a per-iteration copy of the loop variable"
+					}
+				}
+			}
 		}
 		return false, "indexed element not selected by the loop variable"
 	case *ssa.UnOp:
